@@ -4,7 +4,7 @@
 #include "matrix.h"
 #include "vector.h"
 size_t vc_cent_calls;
-#ifdef VC_UNIT_PCA
+#if defined(VC_UNIT_PCA) && !defined(VC_CONVERGED_AT_ONCE)
 double calcConvergence(dvector *a, dvector *b) { (void)a; (void)b; double z = 0.0; return z / z; } /* never signals convergence */
 #endif
 #ifdef VC_UNIT_KMEANS
@@ -16,4 +16,8 @@ void getCentroids(matrix *m, uivector *l, matrix **c)
   vc_cent_calls++;
   (*c)->data[0][0] = (vc_cent_calls & 1) ? 1000.0 : -1000.0;
 }
+#endif
+#ifdef VC_CONVERGED_AT_ONCE
+/* C01 bookkeeping jobs: the convergence measure signals convergence at the first test */
+double calcConvergence(dvector *a, dvector *b) { (void)a; (void)b; return 0.0; }
 #endif
